@@ -47,6 +47,12 @@ Oracle(SP + "ShuffleContinuumSampler._remove_pivot_segment", rps_cases, rps_chec
 # ------------------------------------------------------------------------------------------ ShuffleContinuumSampler (C16)
 def shuffle_cases(rng, tier):
     labels = ["a", "b", None]
+    # continua whose lower bound is not 0: shifted / negative timestamps followed by reset_bounds(), integer timestamps
+    for k, (off, ints) in enumerate(((500.0, False), (-40.0, False), (7.0, True), (0.0, True))):
+        for spec in common.grid_continua(rng, 3, 3, 30, labels, allow_empty=False, count=2 if tier == "quick" else 10):
+            sp = {a: [[(int(u[0] + off) if ints else u[0] + off), (int(u[1] + off) if ints else u[1] + off), u[2]] for u in us] for a, us in spec.items()}
+            yield {"continuum": sp, "pivot_type": ["float_pivot", "int_pivot"][k % 2], "ground_truth": None if k % 2 else sorted(sp)[:2],
+                   "seed": rng.randint(0, 10 ** 6), "reset_bounds": True}
     for n, mx in ((2, 3), (3, 3), (4, 2), (5, 2)):
         for spec in common.grid_continua(rng, n, mx, 30, labels, allow_empty=False, count=6 if tier == "quick" else 40):
             for pt in ("float_pivot", "int_pivot"):
@@ -58,6 +64,8 @@ def shuffle_check(inp):
     pa = pkg()
     import numpy as np
     c = common.make_continuum(inp["continuum"])
+    if inp.get("reset_bounds"):
+        c.reset_bounds()
     s = pa.ShuffleContinuumSampler(pivot_type=inp["pivot_type"])
     s.init_sampling(c, inp["ground_truth"])
     pivots = []
@@ -70,7 +78,10 @@ def shuffle_check(inp):
     s._random_from_segments = rec
     np.random.seed(inp["seed"])
     before = [(a, [(u.segment.start, u.segment.end, u.annotation) for u in c.iter_annotator(a)]) for a in c.annotators]
-    new = s.sample_from_continuum
+    try:
+        new = s.sample_from_continuum
+    except Exception as ex:   # noqa
+        return fail("drawing a sample returns a continuum", inp, repr(ex), "a continuum")
     gt = sorted(inp["ground_truth"] or inp["continuum"])
     clause = ("sample = |GT| annotators, each a copy of one ground-truth annotator's units shifted by one pivot within the bounds "
               "(wrapped by the continuum's length when the start passes the upper bound); pivots pairwise >= avg unit length / 2 apart")
